@@ -73,6 +73,58 @@ def relink_rules(ctx, toks):
             out.extend(tokenize('%starget.group()' % t.ws)); i += 5; fire(ctx, 'pointer-method'); continue
         out.append(t); i += 1
     return out
+def section_link_rules(ctx, toks):
+    """metadata(none) / link(none) (the overload that removes the link) -> metadata_none() / link_none();  util::IdFilter<Section>(id) -> mk_IdFilter(id);
+       auto found = tmp.findSections(..) -> std::vector<Section> found = ..;  auto target = dynamic_pointer_cast<SectionHDF5>(E) -> SectionP target = E;  target->group() -> target.group();
+       in these units the link queries of the own group are the ghosts hasGroup_sl / createLink_sl"""
+    from cxx2c import Tok, P, seq_at, match_close, tokenize, fire
+    pre = []; i = 0
+    while i < len(toks):          # Section::impl() on found.front(): the back-end handle of the front-end entity (a field of the record)
+        t = toks[i]
+        if t.t == 'front' and seq_at(toks, i + 1, ['(', ')', '.', 'impl', '(', ')']):
+            pre.extend([t, toks[i + 1], toks[i + 2], toks[i + 3], Tok('id', 'impl_', '')]); i += 7; fire(ctx, 'handle-of-entity'); continue
+        pre.append(t); i += 1
+    toks = pre
+    out = []; i = 0
+    def skipq(k):
+        while k and out[k - 1].t in ('std', '::', 'util'): k -= 1
+        return k
+    while i < len(toks):
+        t = toks[i]
+        if t.t in ('metadata', 'link') and toks[i + 1].t == '(' and toks[i + 2].t in ('none', 'OPT_NONE') and toks[i + 3].t == ')':
+            out.extend(tokenize('%s%s_none()' % (t.ws, t.t))); i += 4; fire(ctx, 'none-overload'); continue
+        if t.t == 'IdFilter' and toks[i + 1].t == '<':
+            j = i + 2
+            while toks[j].t != '>': j += 1
+            k = skipq(len(out)); ws = out[k].ws if k < len(out) else t.ws; del out[k:]
+            out.append(Tok('id', 'mk_IdFilter', ws)); i = j + 1; fire(ctx, 'filter-ctor'); continue
+        if t.t == 'auto' and toks[i + 1].t == 'found':
+            out.extend(tokenize('%svec_Section' % t.ws)); ctx.env['found'] = ('vec_Section', False); i += 1; fire(ctx, 'auto-from-getter'); continue
+        if t.t == 'auto' and toks[i + 1].t == 'target' and toks[i + 2].t == '=':
+            j = i + 3
+            while toks[j].t in ('std', '::'): j += 1
+            if toks[j].t == 'dynamic_pointer_cast':
+                k = j + 1
+                while toks[k].t != '>': k += 1
+                e = match_close(toks, k + 1)
+                out.extend(tokenize('%sSectionP target =' % t.ws)); out.extend(toks[k + 2:e]); ctx.env['target'] = ('SectionP', False); i = e + 1; fire(ctx, 'pointer-cast'); continue
+        if t.t == 'target' and seq_at(toks, i + 1, ['->', 'group', '(', ')']):
+            out.extend(tokenize('%starget.group()' % t.ws)); i += 5; fire(ctx, 'pointer-method'); continue
+        if t.t == 'front' and seq_at(toks, i + 1, ['(', ')', '.', 'impl', '(', ')']):
+            out.extend([t, toks[i + 1], toks[i + 2], toks[i + 3], Tok('id', 'impl_', '')]); i += 7; fire(ctx, 'handle-of-entity'); continue     # Section::impl(): the back-end handle of the front-end entity
+        out.append(t); i += 1
+    return out
+def sl_names(ctx, toks):
+    for t in toks:
+        if t.k == 'id' and t.t == 'H5Group_hasGroup': t.t = 'H5Group_hasGroup_sl'
+        elif t.k == 'id' and t.t == 'H5Group_createLink': t.t = 'H5Group_createLink_sl'
+    return toks
+SLCL = ['EntityWithMetadataHDF5', 'SectionHDF5', 'File', 'Section', 'SectionP', 'H5Group', 'nstring', 'IdFilterT']
+SLUNITS = {'EntityWithMetadataHDF5_metadata_set': dict(file='backend/hdf5/EntityWithMetadataHDF5.cpp', locator=r'void\s+EntityWithMetadataHDF5::metadata\s*\((?=\s*const\s+std::string\s*&)', cls='EntityWithMetadataHDF5',
+                                                      cls_file='backend/hdf5/EntityWithMetadataHDF5.hpp', classes=SLCL, pre_rules=[section_link_rules], post_rules=[sl_names], inherited_methods=['group', 'file', 'metadata_none']),
+           'SectionHDF5_link_set': dict(file='backend/hdf5/SectionHDF5.cpp', locator=r'void\s+SectionHDF5::link\s*\((?=\s*const\s+std::string\s*&)', cls='SectionHDF5', cls_file='backend/hdf5/SectionHDF5.hpp', classes=SLCL,
+                                       pre_rules=[section_link_rules], post_rules=[sl_names], inherited_methods=['group', 'file', 'link_none'])}
+SLX = ('int gh_sl_found, gh_sl_target_grp, gh_sl_has_old, gh_sl_key, gh_sl_empty_id, gh_sl_searches, gh_sl_search_key, gh_sl_unlinks, gh_sl_links, gh_sl_link_target, gh_sl_link_after_unlinks, gh_sl_name_ok; Section gh_sl_hit[1];\n')
 MT = 'backend/hdf5/MultiTagHDF5.cpp'; MTH = 'backend/hdf5/MultiTagHDF5.hpp'
 RLCL = ['MultiTagHDF5', 'H5Group', 'DataArrayP', 'nstring']
 RUNITS = {'MultiTagHDF5_positions_set': dict(file=MT, locator=r'void\s+MultiTagHDF5::positions\s*\((?=\s*const\s+std::string\s*&)', cls='MultiTagHDF5', cls_file=MTH, classes=RLCL, pre_rules=[relink_rules],
@@ -80,6 +132,7 @@ RUNITS = {'MultiTagHDF5_positions_set': dict(file=MT, locator=r'void\s+MultiTagH
           'MultiTagHDF5_extents_set': dict(file=MT, locator=r'void\s+MultiTagHDF5::extents\s*\((?=\s*const\s+std::string\s*&)', cls='MultiTagHDF5', cls_file=MTH, classes=RLCL, pre_rules=[relink_rules],
                                             inherited_methods=['group', 'forceUpdatedAt', 'getArrayEntity'], member_calls={'positions': 'MultiTagHDF5_positions', 'checkDimensions': 'MultiTagHDF5_checkDimensions'})}
 RLX = ('int gh_rl_found, gh_rl_target_grp, gh_rl_target_shape, gh_rl_pos_shape, gh_rl_has_old, gh_rl_removes, gh_rl_links, gh_rl_link_target, gh_rl_link_after_removes, gh_rl_updates, gh_rl_name_ok, gh_rl_remove_name_ok;\n')
-UNITS.update(RUNITS)
+UNITS.update(RUNITS); UNITS.update(SLUNITS)
 JOBS = JOBS + [dict(name=fn, bodies=[fn], enforce=[fn], replace=[], includes=['c08_relink.h'], extra_c=RLX, defines=['RL_NAME="%s"' % ('positions' if 'positions' in fn else 'extents')], expect_kinds=['postcondition'], timeout=300) for fn in RUNITS]
+JOBS = JOBS + [dict(name=fn, bodies=[fn], enforce=[fn], replace=[], includes=['c08_relink.h'], extra_c=RLX + SLX, defines=['RL_NAME="%s"' % ('metadata' if 'metadata' in fn else 'link')], expect_kinds=['postcondition'], timeout=300) for fn in SLUNITS]
 SPEC = dict(contracts=['nd.h', 'c08_gate.h', 'c14_prop.h', 'c08_relink.h'], stubs=[], include_order=['nd.h', 'c08_gate.h'], units=UNITS, jobs=JOBS, trusted_base=TRUST, assumptions=ASSUME)
